@@ -44,6 +44,8 @@ def run_shard(spec, M):
     fam, seed = spec["family"], spec["seed"]
     if fam in ("docs", "reused"):
         reused = doccheck.Reused(rng(seed, ID, "reused", spec["shard"])) if fam == "reused" else None
+        if reused is not None:
+            reused.spec = spec
         for i in range(spec["start"], spec["start"] + spec["n"]):
             R = doccheck.make_doc(seed, fam, i)
             case = {"kind": "doc", "family": fam, "index": i, "seed": seed, "text": R.text}
@@ -134,6 +136,9 @@ def check_row(row, M):
 
 
 def replay(case, M):
+    if case.get("kind") == "shard":
+        run_shard(case["spec"], M)
+        return
     k = case["kind"]
     if k == "doc":
         R = doccheck.make_doc(case["seed"], case["family"], case["index"])
